@@ -173,6 +173,20 @@ def check_2d(ctx, s1, p1, s2, p2, rng, stats):
     if not np.max(np.abs(back - u)) <= 1e-11 * cond * 100:
         ctx.violation({"kind": "data-not-reproduced-2d", "periodic": [p1, p2]}, "2-D interpolant misses its data by %g; spaces %s x %s" % (
             float(np.max(np.abs(back - u))), s1.key(), s2.key()), {"spaces": [s1.key(), s2.key()], "data": u.tolist()})
+    # ... and through the public evaluation forms of the interpolant at its interpolation points: point by point and on the tensor grid
+    g1 = np.array(b1.greville, dtype=float)
+    g2 = np.array(b2.greville, dtype=float)
+    try:
+        pt = np.array([[S.eval(float(a_), float(b_)) for b_ in g2] for a_ in g1])
+        gr = np.array(S.eval(g1.copy(), g2.copy()))
+        for form, got in (("point by point", pt), ("tensor grid", gr)):
+            if not np.max(np.abs(got - u)) <= 1e-11 * cond * 100:
+                ctx.violation({"kind": "data-not-reproduced-2d", "periodic": [p1, p2], "form": form},
+                              "2-D interpolant evaluated %s at its interpolation points misses its data by %g; spaces %s x %s" % (
+                                  form, float(np.max(np.abs(got - u))), s1.key(), s2.key()), {"spaces": [s1.key(), s2.key()], "data": u.tolist()})
+    except Exception as ex:
+        ctx.violation({"kind": "interpolant-raises", "path": "2d", "error": type(ex).__name__}, "evaluating the 2-D interpolant raised %s: %s; spaces %s x %s" % (
+            type(ex).__name__, ex, s1.key(), s2.key()), {"spaces": [s1.key(), s2.key()]})
     c = S.coeffs
     if p1 and not np.array_equal(c[s1.ncells:s1.ncells + s1.p, :], c[:s1.p, :]):
         ctx.violation({"kind": "periodic-wrap-2d", "axis": 1}, "2-D wrapped coefficients inconsistent along axis 1", {"spaces": [s1.key(), s2.key()]})
